@@ -192,6 +192,64 @@ fn l1_body(c: &CallCase, ch: &Chooser) -> Outcome {
     o
 }
 
+/// L2: the same script through the real transport: Endpoint::connect_with_connector -> Channel
+/// -> hyper/h2 -> in-memory pipe (fragmentation pattern `chop`) -> Server::serve_with_incoming.
+pub fn l2_run(c: &CallCase, chop: usize, ch: &Chooser) -> Result<(ClientView, HandlerLog), String> {
+    use crate::env::vnet::{self, ConnectMode};
+    let rt = vnet::runtime(11);
+    let (server, log) = new_server(c.script.clone(), ch, true);
+    let c2 = c.clone();
+    let ch2 = ch.clone();
+    let view = rt.block_on(async move {
+        let (st, rx) = vnet::connector_state(ConnectMode::Succeed, false, chop);
+        let srv = tokio::spawn(async move {
+            let _ = tonic::transport::Server::builder().add_service(server).serve_with_incoming(vnet::incoming(rx)).await;
+        });
+        let channel = match vnet::within(std::time::Duration::from_secs(600), tonic::transport::Endpoint::from_static("http://c02.test:1").connect_with_connector(vnet::connector(st))).await {
+            Some(Ok(c)) => c,
+            Some(Err(e)) => return Err(format!("connect failed: {e}")),
+            None => return Err("connect hung".into()),
+        };
+        let mut client = EchoClient::new(channel);
+        let v = vnet::within(std::time::Duration::from_secs(3600), client_call(&mut client, c2.shape, c2.req_msgs.clone(), &c2.req_md, true, &ch2, |_| {})).await;
+        srv.abort();
+        v.ok_or_else(|| "call hung".to_string())
+    })?;
+    drop(rt);
+    let l = log.lock().unwrap().clone();
+    Ok((view, l))
+}
+
+#[derive(Clone, Debug)]
+pub struct L2Case {
+    pub call: CallCase,
+    pub chop: usize,
+}
+
+fn l2_body(c: &L2Case, ch: &Chooser) -> Outcome {
+    match l2_run(&c.call, c.chop, ch) {
+        Err(e) => {
+            let mut o = Outcome::new(format!("FAILED {e}"));
+            o.violate(if e.contains("hung") { "hang" } else { "transport-setup" }, e);
+            o
+        }
+        Ok((view, log)) => {
+            let mut clean = view.clone();
+            // transport-added response headers (date) are not part of the observation
+            if let Some(h) = clean.initial_md.as_mut() {
+                h.remove("date");
+            }
+            if let Some(e) = clean.error.as_mut() {
+                e.metadata_mut().remove("date");
+            }
+            let mut o = Outcome::new(format!("{} | handler msgs={:?} err={:?}", fmt_view(&clean), log.req_msgs, log.req_err));
+            o.nontrivial = c.chop != 0 || c.call.script.end.is_some();
+            judge(&mut o, &c.call, &view, &log);
+            o
+        }
+    }
+}
+
 pub fn describe(c: &CallCase) -> String {
     format!(
         "{:?} req={:?} req_md={:?} script{{md={:?} msgs={:?} end={:?} handler_err={} mode={:?}}} free={}",
@@ -209,12 +267,31 @@ pub fn property(tier: Tier) -> Property {
         l1_body,
     )
     .mins(1000, 20, 100);
+    let mut l2cases = vec![];
+    for (i, call) in call_cases(tier).into_iter().enumerate() {
+        if call.free_cuts {
+            continue;
+        }
+        let chops: Vec<usize> = if tier == Tier::Thorough { (0..6).collect() } else { vec![i % 6] };
+        for chop in chops {
+            l2cases.push(L2Case { call: call.clone(), chop });
+        }
+    }
+    let l2 = Section::new(
+        "l2-transport",
+        Config { max_bound: tier.q(1, 2), hang_secs: 60, ..Default::default() },
+        "cases: every call case of l1-direct through the real transport — Endpoint::connect_with_connector -> Channel -> hyper/h2 -> in-memory pipe -> Server::serve_with_incoming -> generated server — in virtual time, with the pipe fragmenting reads/writes by a pattern from a menu of 6 (unbounded, 1-byte, 1-2-3 with Pending every 5th transfer, 7 with Pending every 2nd, 64, 4096; quick: one rotating pattern per case, thorough: all six); environment: request and response message sources answer Pending (<= bound deviations); oracle: the same script-derived judgement as l1-direct. Non-trivial = a fragmenting pattern or an error status scripted.",
+        l2cases,
+        |c: &L2Case| format!("chop={} {}", c.chop, describe(&c.call)),
+        l2_body,
+    )
+    .mins(500, 20, 100);
     Property {
         id: "C02",
         level: "model_checking",
         hang_is_violation: true,
         assumptions: vec!["reserved metadata names are outside this alphabet (C08)".into(), "Code::Ok is not an error status".into()],
-        sections: vec![l1],
+        sections: vec![l1, l2],
         extra: Default::default(),
     }
 }
